@@ -7,6 +7,8 @@ module-level dicts), never by parsing source text.  Used by C02 (settings decodi
 Tables (names are an interface – keep them stable):
   settingMembers      List (String × Nat)   every BeaconSetting member in definition order (aliases included)
   settingNames        List (Nat × String)   for every defined value v: BeaconSetting(v).name (cstruct alias resolution)
+  settingNameBytes, deprecatedNameBytes : List (Nat × Bytes), unknownPrefixBytes, deprecatedUnknownPrefixBytes : Bytes
+                      the same names as ASCII byte lists (used by the C02 model: kernel `decide` on String is slow)
   deprecatedNames     List (Nat × String)   DeprecatedBeaconSetting(v).name
   unknownPrefix, deprecatedUnknownPrefix    String: `str(enum(v)).replace(".", "_")` minus the digits, for nameless values
   settingsTypes       List (Nat × String)   SettingsType
@@ -55,6 +57,19 @@ def _table_ns(name, pairs):
     return f"def {name} : List (Nat × String) := [\n{body}]\n"
 
 
+def _ascii(s: str) -> str:
+    b = s.encode("ascii")  # raises for a non-ASCII identifier (not translatable to the Bytes model)
+    if not b:
+        raise ValueError("empty enum member name")
+    return "[" + ", ".join(str(x) for x in b) + "]"
+
+
+def _table_nb(name, pairs):
+    """List (Nat × Bytes): the same table with the names as ASCII byte lists (cheap to decide about in the kernel)."""
+    body = _chunks([f"({int(v)}, {_ascii(n)})" for v, n in pairs], 1)
+    return f"def {name} : List (Nat × Bytes) := [\n{body}]\n"
+
+
 def _members(enum_cls):
     """(name, value) of every member in definition order, aliases included."""
     mem = enum_cls.__members__
@@ -100,18 +115,22 @@ def generate(repo: Path):
     emit("settingMembers", f"def settingMembers : List (String × Nat) := [\n{body}]\n")
     names = _resolved(BS)
     emit("settingNames", _table_ns("settingNames", names))
+    emit("settingNameBytes", _table_nb("settingNameBytes", names))
     # unknown values have no name and print as "BeaconSetting.<v>" (checked on a value that is not defined)
     defined = {v for v, _ in names}
     probe = next(v for v in range(1, 70000) if v not in defined)
     if BS(probe).name is not None or str(BS(probe)) != f"BeaconSetting.{probe}" or int(BS(probe).value) != probe:
         raise ValueError("unknown BeaconSetting values no longer behave as (name None, str 'BeaconSetting.<v>')")
     emit("unknownPrefix", f"def unknownPrefix : String := {_lean_str(BS.__name__ + '_')}\n")
+    emit("unknownPrefixBytes", f"def unknownPrefixBytes : Bytes := {_ascii(BS.__name__ + '_')}\n")
 
     emit("deprecatedNames", _table_ns("deprecatedNames", _resolved(DBS)))
+    emit("deprecatedNameBytes", _table_nb("deprecatedNameBytes", _resolved(DBS)))
     dprobe = next(v for v in range(1, 70000) if v not in {x for x, _ in _resolved(DBS)})
     if DBS(dprobe).name is not None or str(DBS(dprobe)) != f"{DBS.__name__}.{dprobe}":
         raise ValueError("unknown DeprecatedBeaconSetting values no longer behave as (name None, str '<Enum>.<v>')")
     emit("deprecatedUnknownPrefix", f"def deprecatedUnknownPrefix : String := {_lean_str(DBS.__name__ + '_')}\n")
+    emit("deprecatedUnknownPrefixBytes", f"def deprecatedUnknownPrefixBytes : Bytes := {_ascii(DBS.__name__ + '_')}\n")
     emit("settingsTypes", _table_ns("settingsTypes", _resolved(ST)))
 
     # ---- SETTING_TO_PRETTYFUNC: keys; the lookup `get(setting.index)` must succeed exactly through BeaconSetting(v)
